@@ -153,6 +153,7 @@ structure DState where
   expr : Option AExpr := none
   tsys : TSys := { threads := [] }
   conts : List Cont := []
+  ctraits : ATraits := {}
   fixes : Fixes := {}
 
 /-- one trace line in, the model's line out -/
@@ -186,7 +187,7 @@ def step (ds : DState) (line : String) : DState × String :=
           else if op = "move_assign" then some (.moveAssign (nat! i) (nat! j)) else if op = "swap" then some (.swap (nat! i) (nat! j))
           else if op = "copy_ctor" then some (.copyCtor (nat! i) (nat! j)) else if op = "move_ctor" then some (.moveCtor (nat! i) (nat! j))
           else if op = "splice" then some (.splice (nat! i) (nat! j)) else none
-        match cop.bind (cstep {} ds.conts) with
+        match cop.bind (cstep ds.ctraits ds.conts) with
         | some cs => ({ ds with conts := cs }, mkLine (secs.getD 0 "") "" (bindStr cs) "" obs)
         | none => (ds, mkLine (secs.getD 0 "") "" "precondition-violated" "" obs)
   | "tmt" :: "scripts" :: rest =>
@@ -208,7 +209,9 @@ def step (ds : DState) (line : String) : DState × String :=
       let fx : Fixes := match hdr rest "tmpfix" with
         | some f => { resetTls := f.toList.getD 0 '1' == '1', armOnAdopt := f.toList.getD 1 '1' == '1', destroyAlways := f.toList.getD 2 '1' == '1' }
         | none => {}
-      ({ ds with stack := { cfg := parseCfg rest, subject := subj }, pool := { cfg := parseCfg rest }, fixes := fx },
+      let tb (k : String) : Bool := (hdr rest k).getD "1" = "1"
+      let tr : ATraits := { pocca := tb "pocca", pocma := tb "pocma", pocs := tb "pocs" }
+      ({ ds with stack := { cfg := parseCfg rest, subject := subj }, pool := { cfg := parseCfg rest }, fixes := fx, ctraits := tr },
        line.trimAscii.toString)
   | subj :: rest =>
       let env := parseEnv (secs.getD 1 "")
